@@ -37,8 +37,8 @@ def shape_captured(r, n):
     return "self/captured-variable", src, "N"
 
 
-def shape_mutual(r, n):
-    k = r.randint(2, 5)
+def shape_mutual(r, n, k=None):
+    k = k or r.randint(2, 5)
     defs = []
     for j in range(k):
         nxt = (j + 1) % k
@@ -146,7 +146,8 @@ DEEP = [
     ("non-tail-in-let", "(define (g n) (if (= n 0) 0 (let ((r (g (- n 1)))) (+ r 1))))\n(g %d)", 20000000),
 ]
 
-CONFIGS = [("default", {}), ("nojit", {"STEEL_JIT": "false"})]
+CONFIGS = [("default", {}, False), ("nojit", {"STEEL_JIT": "false"}, False),
+           ("module", {}, True), ("module-nojit", {"STEEL_JIT": "false"}, True)]
 
 
 def instantiate(src, n):
@@ -163,6 +164,8 @@ def main(tier):
     for _ in range(reps):
         for f in SHAPES:
             progs.append(f(r, 0))
+    for k in (2, 3, 4, 5):
+        progs.append(shape_mutual(r, 0, k))
     # dedupe
     seen = set()
     uniq = []
@@ -176,7 +179,7 @@ def main(tier):
         "internal-define/lambda-application bodies, named let, do, rest arguments direct and via apply, through a global "
         "set! mid-loop, CPS, via a higher-order helper, handler tail) x iteration counts x {JIT on, off}; a case is "
         "non-trivial when all three in-loop depth samples were taken; distinct by (shape source, count, config)")
-    for cname, env in CONFIGS:
+    for cname, env, as_module in CONFIGS:
         cases = []
         meta = {}
         for k, (name, src, closed) in enumerate(uniq):
@@ -185,14 +188,26 @@ def main(tier):
                     continue
                 cid = "%s_%d_%d" % (cname, k, n)
                 meta[cid] = (name, src, closed, n)
-                cases.append({"id": cid, "units": [SAMPLER, instantiate(src, n), "vf-samples"],
-                              "timeout_ms": 300000 if n >= 1000000 else 60000, "mem_mb": 8192})
+                if as_module:
+                    # one module: sampler, loop and reporting (the way `steel file.scm` runs a script)
+                    body = instantiate(src, n)
+                    lines = body.rstrip().split("\n")
+                    lines[-1] = "(verif-emit %s)" % lines[-1]
+                    text = SAMPLER + "\n" + "\n".join(lines) + "\n(verif-emit vf-samples)"
+                    cases.append({"id": cid, "units": [text], "as_module": True,
+                                  "timeout_ms": 300000 if n >= 1000000 else 60000, "mem_mb": 8192})
+                else:
+                    cases.append({"id": cid, "units": [SAMPLER, instantiate(src, n), "vf-samples"],
+                                  "timeout_ms": 300000 if n >= 1000000 else 60000, "mem_mb": 8192})
         deep_meta = {}
         for name, src, depth in DEEP:
             d = depth if tier == "thorough" else depth // 10
             cid = "%s_deep_%s" % (cname, name)
             deep_meta[cid] = (name, src % d)
-            cases.append({"id": cid, "units": [src % d], "timeout_ms": 300000, "mem_mb": 12288})
+            dc = {"id": cid, "units": [src % d], "timeout_ms": 300000, "mem_mb": 12288}
+            if as_module:
+                dc["as_module"] = True
+            cases.append(dc)
         results, m = core.run_cases(cases, env=env, tag="c09")
         for e in m["harness_errors"]:
             rep.inconclusive_note("harness: %s" % e)
@@ -202,7 +217,7 @@ def main(tier):
             if res is None:
                 continue
             rep.count()
-            replay = {"config": env, "shape": name, "src": instantiate(src, n)}
+            replay = {"config": env, "shape": name, "src": instantiate(src, n), "as_module": as_module}
             if res["status"] != "ok":
                 if res["status"] == "timeout":
                     rep.inconclusive_note("timeout: %s n=%d %s" % (name, n, cname))
@@ -214,6 +229,11 @@ def main(tier):
                                   "config=%s n=%d stderr=%s" % (cname, n, res.get("stderr_tail", "")[-200:]), replay)
                 continue
             us = res["units"]
+            if as_module and us and us[0].get("ok") and len(us[0].get("emits") or []) >= 2:
+                em = us[0]["emits"]
+                us = [{"ok": True}, {"ok": True, "vals": [em[-2]]}, {"ok": True, "vals": [em[-1]]}]
+            elif as_module:
+                us = [{"ok": True}, dict(us[0] if us else {}, ok=False)]
             if len(us) < 3 or not us[1].get("ok"):
                 u = us[1] if len(us) > 1 else {}
                 rep.violation("C09 %s: loop ended with an error" % name,
